@@ -27,7 +27,6 @@ def run():
     if repo not in sys.path:
         sys.path.insert(0, repo)
     last = {}
-    orig = Inverter._map_response
 
     def mapper(response, sensors, *more, **kw):
         cmd = response.command
@@ -45,7 +44,6 @@ def run():
                 if pos < 0 or pos + n > len(raw):
                     continue
                 last[s.id_] = (refdec.decode(s, bytes(raw[pos:pos + n])), tname(s), bytes(raw[pos:pos + n]).hex(), s)
-        return orig(response, sensors, *more, **kw)
 
     stats = dict(n=0, ok=0)
     mism = []
@@ -68,7 +66,7 @@ def run():
             return old(self, sensor_name, expected_value, expected_unit, data)
         return assert_sensor
 
-    Inverter._map_response = staticmethod(mapper)
+    restore = world.wrap_method(Inverter, '_map_response', mapper)
     classes = 0
     patched = []
     try:
@@ -91,7 +89,7 @@ def run():
         suite.run(res)
         stats['errors'] = len(res.errors) + len(res.failures)
     finally:
-        Inverter._map_response = staticmethod(orig)
+        restore()
         for obj, old in patched:
             obj.assertSensor = old
         world.reset()
